@@ -168,6 +168,19 @@ def run_shard(ctx):
 
     ctx.hypothesis_stage("text-width<=5", text, txt_body, 40000 if ctx.tier == "quick" else 2000000)
 
+    # ---- coverage-guided byte-level fuzzing (atheris) with the same oracle inside the target -----------------------
+    from vlib import fuzzrun
+    from vlib.runner import hseed, Violation
+    for payload in fuzzrun.run_target(ctx, "atheris-decode", "fuzz_c19.py", 20000 if ctx.tier == "quick" else 1500000,
+                                      24, hseed(ctx.seed, "C19", "atheris", ctx.shard)):
+        case = {"kind": "field", "field": payload["field"]}
+        try:
+            ctx.account(case, check_string(payload["field"])[0] or
+                        [{"clause": "fuzz-target", "detail": repr(payload)}], {})
+        except Violation as v:
+            ctx.record_violation("atheris-decode", v)
+            break
+
     # ---- structure level: the serial column never influences predictions (shares C07's column-rewrite oracle) ----
     try:
         from props import c07
